@@ -471,7 +471,20 @@ def rule_formulas(repo, rep):
   wrong = 'np.trace(metric * prior_inv)' in rtxt or \
       'np.trace(prior_inv * metric)' in rtxt or \
       'np.sum(metric.dot(prior_inv))' in rtxt
-  rep.add(R, 'lsml._BaseLSML._total_loss:regulariser', 'derived' if okr else
+  logofdet = any(isinstance(c_, ast.Call) and
+                 ast.unparse(c_.func) in ('np.log', 'math.log', 'numpy.log')
+                 and c_.args and isinstance(c_.args[0], ast.Call) and
+                 ast.unparse(c_.args[0].func).endswith('linalg.det')
+                 for c_ in (ast.walk(reg[0]) if reg else ()))
+  if logofdet and not okr:
+    rep.refuted(R, 'lsml._BaseLSML._total_loss:regulariser', site(ft),
+                'the log-determinant is computed as log(det(M)): the '
+                'determinant over- / underflows for moderately large '
+                'matrices (det(100 I_160) = inf), the loss at the prior is '
+                'then infinite and no step is accepted; slogdet is required')
+    wrong = okr = None
+  if wrong is not None:
+   rep.add(R, 'lsml._BaseLSML._total_loss:regulariser', 'derived' if okr else
           'refuted' if wrong else 'unknown', site(ft),
           '' if okr else ('regulariser %s is not tr(M M0^-1) - logdet M '
                           '(trace of the element-wise product / sum of the '
@@ -765,6 +778,40 @@ def rule_distances(repo, rep):
             'positive' % ast.unparse(sdefs[0]))
 
 
+def rule_all_steps_tried(repo, rep):
+  R = 'R-FLOW:lsml-every-step-size-evaluated'
+  rep.rule(R, 'the step-size search evaluates the loss for every candidate '
+           'step of the iteration (the loop that calls the total loss on a '
+           'candidate matrix contains no break / continue / return): the '
+           'smallest steps change nothing in floating point near a '
+           'stationary point, so leaving the loop at the first '
+           'non-improving candidate stops the solver early')
+  f = astutil.inline_helpers(repo, repo.get_func('lsml._BaseLSML._fit'))
+  loops = []
+  for n in ast.walk(f.node):
+    if isinstance(n, ast.For) and any(
+            isinstance(c_, ast.Call) and ast.unparse(c_.func).endswith(
+                '_total_loss') for c_ in ast.walk(n)) and not any(
+            isinstance(x, ast.For) and x is not n and any(
+                isinstance(c_, ast.Call) and ast.unparse(c_.func).endswith(
+                    '_total_loss') for c_ in ast.walk(x))
+            for x in ast.walk(n)):
+      loops.append(n)
+  key = 'lsml._BaseLSML._fit:step-search'
+  if len(loops) != 1:
+    rep.unknown(R, key, site(f), '%d candidate loops' % len(loops))
+    return
+  lp = loops[0]
+  skips = [x for x in ast.walk(lp)
+           if isinstance(x, (ast.Break, ast.Continue, ast.Return))]
+  if skips:
+    rep.refuted(R, key, site(f, skips[0]), 'the search leaves the candidate '
+                'loop under %s' % (astutil.path_condition(lp, skips[0]) or
+                                   'a condition'))
+  else:
+    rep.derived(R, key, site(f, lp))
+
+
 def check(repo, rep, tier):
   rule_acceptance(repo, rep)
   rule_stopping(repo, rep)
@@ -772,6 +819,7 @@ def check(repo, rep, tier):
   rule_loss_gradient_inputs(repo, rep)
   rule_formulas(repo, rep)
   rule_distances(repo, rep)
+  rule_all_steps_tried(repo, rep)
   # the caller's weights are not modified (FRESH rule of C17, LSML only)
   before = len(rep.obs)
   c17.rule_writes(repo, rep)
